@@ -576,7 +576,7 @@ void Miser(std::function<double(std::vector<double>&, const double)> func, std::
 {
 	const int MNPT = 15, MNBS = 60;
 	const double PFAC = 0.1, TINY = 1.0e-30, BIG = 1.0e30;
-	static int iran = 0;
+	int iran = 0;	// deliberately not static: a static counter made the fallback split dimension depend on every earlier Miser call
 	int j, jb, n, ndim, npre, nptl, nptr;
 	double avel, varl, fracl, fval, rgl, rgm, rgr, s, sigl, siglb, sigr, sigrb;
 	double sum, sumb, summ, summ2;
